@@ -51,3 +51,17 @@ PROPS = {
         'trusted': ['modelled: prng helpers and math/rand algorithms (Go 1.24); sha3/hkdf trusted; float64 semantics of the coin validated by correspondence only'],
     },
 }
+
+
+# per-property fragments: tools/props.d/Cxx.py defines PROP = {...} (same keys as above)
+import os as _os, importlib.util as _ilu
+_d = _os.path.join(_os.path.dirname(_os.path.abspath(__file__)), 'props.d')
+if _os.path.isdir(_d):
+    for _f in sorted(_os.listdir(_d)):
+        if _f.endswith('.py'):
+            _spec = _ilu.spec_from_file_location('props_' + _f[:-3], _os.path.join(_d, _f))
+            _m = _ilu.module_from_spec(_spec)
+            _spec.loader.exec_module(_m)
+            PROPS[_f[:-3]] = _m.PROP
+            if hasattr(_m, 'NOT_CLAIMED_REASON'):
+                NOT_CLAIMED[_f[:-3]] = _m.NOT_CLAIMED_REASON
